@@ -163,7 +163,7 @@ func (e *Env) eval(x spec.Expr) TV {
 // or Go basic type names.
 func (e *Env) sortName(s string) (string, types.Type) {
 	switch s {
-	case "Int", "Bool", "Str", "Slice", "Iface", "Float":
+	case "Int", "Bool", "Str", "Slice", "Iface", "Float", "Bytes":
 		return s, nil
 	case "Ref":
 		return "Int", nil
@@ -778,6 +778,62 @@ func (e *Env) call(x *spec.Call) TV {
 		c, a, b := e.eval(x.Args[0]), e.materialize(e.eval(x.Args[1])), e.materialize(e.eval(x.Args[2]))
 		a, b = e.unify(a, b)
 		return TV{fmt.Sprintf("(ite %s %s %s)", c.T, a.T, b.T), a.Sort, a.Go}
+	case "bytes":
+		// bytes(x): the byte string held by a []byte, a byte array or a string
+		a := e.eval(x.Args[0])
+		mk := func(rowT, off, n Term) TV {
+			return TV{fmt.Sprintf("(mk.bytes %s (win %s %s %s))", n, rowT, off, n), "Bytes", nil}
+		}
+		if a.Sort == "Str" {
+			return mk(fmt.Sprintf("(str.bytes %s)", a.T), "0", fmt.Sprintf("(slen %s)", a.T))
+		}
+		if a.Go != nil {
+			t := a.Go
+			isRef := a.Sort == atRefSort
+			if pt := deref(t); pt != nil && a.Sort != atRefSort {
+				t, isRef = pt, true
+			}
+			switch tt := types.Unalias(t).Underlying().(type) {
+			case *types.Slice:
+				k := g.u.ElemComp(tt.Elem())
+				return mk(fmt.Sprintf("(select %s (s.base %s))", g.read(e.cur, k), a.T), fmt.Sprintf("(s.off %s)", a.T), fmt.Sprintf("(s.len %s)", a.T))
+			case *types.Array:
+				if isRef {
+					k := g.u.ElemComp(tt.Elem())
+					return mk(fmt.Sprintf("(select %s %s)", g.read(e.cur, k), a.T), "0", fmt.Sprint(tt.Len()))
+				}
+				return mk(a.T, "0", fmt.Sprint(tt.Len()))
+			}
+		}
+		e.fail("bytes() of %s", a.Sort)
+	case "sub":
+		// sub(s, lo, hi): the Go slice expression s[lo:hi]
+		a, lo, hi := e.eval(x.Args[0]), e.eval(x.Args[1]), e.eval(x.Args[2])
+		if a.Sort != "Slice" {
+			e.fail("sub() needs a slice")
+		}
+		return TV{fmt.Sprintf("(mk.slice (s.base %s) (+ (s.off %s) %s) (- %s %s) (- (s.cap %s) %s))", a.T, a.T, lo.T, hi.T, lo.T, a.T, lo.T), "Slice", a.Go}
+	case "deref":
+		// deref(p): value of the cell p points to (non-aggregate pointee)
+		a := e.eval(x.Args[0])
+		et := deref(a.Go)
+		if a.Go == nil || et == nil {
+			e.fail("deref() needs a pointer")
+		}
+		if isAggregate(et) {
+			return TV{a.T, atRefSort, et}
+		}
+		return TV{g.load(e.cur, g.placeOfRef(a.T, et)), g.u.SortOf(et), et}
+	case "blen":
+		a := e.eval(x.Args[0])
+		return TV{fmt.Sprintf("(b.len %s)", a.T), "Int", nil}
+	case "bat":
+		a, i := e.eval(x.Args[0]), e.eval(x.Args[1])
+		return TV{fmt.Sprintf("(select (b.arr %s) %s)", a.T, i.T), "Int", nil}
+	case "bsub":
+		// bsub(b, lo, hi): sub-string [lo,hi)
+		a, lo, hi := e.eval(x.Args[0]), e.eval(x.Args[1]), e.eval(x.Args[2])
+		return TV{fmt.Sprintf("(mk.bytes (- %s %s) (win (b.arr %s) %s (- %s %s)))", hi.T, lo.T, a.T, lo.T, hi.T, lo.T), "Bytes", nil}
 	case "row":
 		// row(s): the backing row of slice s as an SMT array
 		a := e.eval(x.Args[0])
